@@ -190,6 +190,13 @@ theorem C01_gate_code (cfg : Cfg) (ps0 : PS) (h0 : ps0.verifier = none) (evs : L
           AcceptedM5 cfg (sessOf cfg x A).Kb e.pre e.req e.post) :=
   gate_code_trace cfg ps0 Ghost.init (ginv_init cfg ps0 h0) evs
 
+/-- The accessory issues its SRP proof EXACTLY for good M3s — in any state, for any request bytes (the
+    predicate the differential run evaluates independently with the reference server formulas and compares
+    with the real answers, op by op). -/
+theorem C01_proof_iff_good_m3 (cfg : Cfg) (ps : PS) (r : Req) :
+    isO1 (step cfg ps r).2.1 = goodM3 cfg ps r :=
+  (goodM3_eq_isO1 cfg ps r).symm
+
 /-- The ghost of `C01_gate_code` is a specification, not a restatement: an exchange is opened only by a
     served M1 — with the code configured at that moment and that request's randomness — and lives until
     the next served M1 or accepted M5; the demonstrating `A` is set only by a good M3 of the open exchange
